@@ -149,7 +149,7 @@ Definition check_par (prop : Z) (inp impl : sx) : sx :=
       | _, _, _, _ => badcase
       end
   (* ---- real TCP runs against a loopback target *)
-  | L [A 12; A me; A capab], L [A status; A has_ns; A has_cause_i; A syn; A ackpsh; A accepted; L closes; A tuple_mismatch; A leaked] =>
+  | L [A 12; A me; A capab], L [A status; A has_ns; A has_cause_i; A syn; A ackpsh; A accepted; L closes; A tuple_mismatch; A endpoint_mismatch; A leaked] =>
       let m := d_method me in
       let fault := if capab <=? 1 then FNone else if capab =? 2 then FNoSackPermitted else if capab =? 3 then FAckWithoutSack
                    else if capab =? 4 then FDial injected else if capab =? 5 then FHandshakeNotCaptured else if capab =? 6 then FFilter injected
@@ -171,6 +171,9 @@ Definition check_par (prop : Z) (inp impl : sx) : sx :=
                     else []
                 | _ => []
                 end)
+        else if prop =? 6 then
+          (* the source and destination endpoints a run reports are the ones of the probes it wrote *)
+          (if endpoint_mismatch =? 0 then [] else [6; 5])
         else if prop =? 12 then
           (* the 4-tuple filter installed on a handle is the flow of the TCP probes written through that handle *)
           (if tuple_mismatch =? 0 then [] else [6; 3])
